@@ -54,7 +54,36 @@ def generate(rng, tier):
     lines = ['gb.new 0 %s' % sysgen.enc(rl[0]), 'gb.obs 0', 'gb.new 1 %s' % sysgen.enc(rl[1]), 'gb.cyc 0 1', 'gb.obs 0', 'gb.obs 1',
              'gb.cyc 0 1000', 'gb.obs 0', 'gb.obs 1']
     cases.append(('create_then_step', lines))
-    info = dict(input_distribution=dict(combinations=len(combos)), samples=[dict(case=cases[0][0], script=cases[0][1][:14])])
+    # interrupt dispatch (running and halted) on an instance that is not the most recently created one
+    nint = 0
+    for prog in ([0xfb, 0x18, 0xfe], [0xfb, 0x76, 0x18, 0xfd], [0xfb, 0x00, 0x76, 0x00, 0x18, 0xfa]):
+        for target in (0, 1):
+            lines = ['gb.newloop %d 0 0 0' % i for i in range(3)]
+            for i, b in enumerate(prog):
+                lines.append('gb.w %d %d %d' % (target, 0xc000 + i, b))
+            lines.append('gb.set %d 1 2 3 4 5 0 6 7 57343 49152' % target)
+            lines += ['gb.w %d 65535 %d' % (target, rng.choice([0x1f, 0x05, 0x04])), 'gb.w %d 65287 5' % target,
+                      'gb.w %d 65286 %d' % (target, rng.randrange(200, 256)), 'gb.w %d 65285 250' % target]
+            for _ in range(30):
+                lines.append('gb.cyc %d %d' % (target, rng.choice([1, 2, 3, 5, 7, 20, 100])))
+                lines += obs_all(3)
+            lines += ['gb.rr %d 57328 57343' % i for i in range(3)]
+            cases.append(('irq%d' % nint, lines))
+            nint += 1
+    # external RAM of cartridges that declare none / some: written on one instance, read on the others
+    nram = 0
+    for typ, ramc in [(0x01, 0), (0x00, 0), (0x11, 0), (0x19, 0), (0x03, 2), (0x13, 3), (0x1b, 2), (0x06, 0)]:
+        lines = ['gb.newloop %d %d 1 %d' % (i, typ, ramc) for i in range(3)]
+        lines += ['gb.w %d 0 10' % i for i in range(3)]
+        for _ in range(12):
+            i = rng.randrange(3)
+            a = rng.choice([0xa000, 0xa001, 0xa1ff, 0xbfff, rng.randrange(0xa000, 0xc000)])
+            lines.append('gb.w %d %d %d' % (i, a, rng.randrange(255)))
+            lines += ['gb.r %d %d' % (j, a) for j in range(3)]
+        lines += ['gb.dump %d' % i for i in range(3)]
+        cases.append(('ram%d' % nram, lines))
+        nram += 1
+    info = dict(input_distribution=dict(combinations=len(combos), interrupt_cases=nint, cartridge_ram_cases=nram), samples=[dict(case=cases[0][0], script=cases[0][1][:14])])
     return cases, info
 
 
